@@ -139,7 +139,26 @@ func (d *cbDriver) random(rng *rand.Rand, nops int) {
 	for i := 0; i < nops; i++ {
 		w, h := d.cb.Size()
 		x, y := rng.Intn(w+3)-1, rng.Intn(h+3)-1
-		switch k := rng.Intn(22); {
+		switch k := rng.Intn(23); {
+		case k == 22:
+			// every cell clean, a wide rune in the last column of a line, every cell clean again, then that cell
+			// changes: nothing but it (and the columns the wide rune covered, had there been any) may turn dirty
+			if w == 0 || h == 0 {
+				continue
+			}
+			cleanAll := func() {
+				for yy := 0; yy < h; yy++ {
+					for xx := 0; xx < w; xx++ {
+						d.simple("SetDirty", xx, yy, false)
+					}
+				}
+			}
+			y = rng.Intn(h)
+			st := tcx.RandStyle(rng, true, true)
+			cleanAll()
+			d.setContent(w-1, y, []rune{0x4e16, 0xac00, 0xff21}[rng.Intn(3)], nil, st)
+			cleanAll()
+			d.setContent(w-1, y, []rune{'a', 0x754c, 'z'}[rng.Intn(3)], cbCombs[rng.Intn(len(cbCombs))], st)
 		case k >= 20:
 			// the same rune and style with another combining list of the same length, on a cell just marked clean:
 			// nothing but the combining runes can make it dirty again
